@@ -4,3 +4,4 @@ NEXT Next
 INVARIANT Laws
 INVARIANT PadInvariant
 CHECK_DEADLOCK FALSE
+INVARIANT BigAgrees
